@@ -83,6 +83,7 @@ class G:
         self._div = {}
         self._alias = {}
         self._sorted = None
+        self._phi = None
         # field index -> unit for array receivers
         self.dimf = {}
         for a in f.adts:
@@ -125,7 +126,53 @@ class G:
             e = strip(e[1])
         if e[0] == "param":
             return (e[1], tuple(reversed(fields)))
+        if e[0] == "var" and fields and e[1] in self.phi_vars():
+            # component of a local that holds a branch-dependent arrangement of parameters: a pseudo parameter
+            return (("v", e[1]), tuple(reversed(fields)))
         return None
+
+    def phi_vars(self):
+        """locals with two or more whole definitions, each a tuple of parameter paths (`if c { (q, p) } else { (p, q) }`):
+        local -> [ [param path of component 0, of component 1, ..] per definition ]"""
+        if self._phi is not None:
+            return self._phi
+        self._phi = {}
+        b = self.body
+        for l in range(b.arg_count + 1, len(b.locals)):
+            ds = self.d.whole_defs(l)
+            if len(ds) < 2 or any(dd[0] != "stmt" for dd in ds) or len(self.d.defs.get(l, [])) != len(ds):
+                continue
+            arms = []
+            for dd in ds:
+                e = strip(self.d.rvalue(dd[3]["rv"]))
+                if e[0] == "agg" and e[1] == "tuple" and e[2]:
+                    leaves = []
+                    for c in e[2]:
+                        c = strip(c)
+                        fields = []
+                        while c[0] == "field":
+                            fields.append(c[2]); c = strip(c[1])
+                        leaves.append((c[1], tuple(reversed(fields))) if c[0] == "param" else None)
+                    if all(x is not None for x in leaves):
+                        arms.append(leaves)
+            if len(arms) == len(ds):
+                self._phi[l] = arms
+        return self._phi
+
+    def phi_components(self, pp):
+        """[(local, [component path per definition])] for phi locals every definition of which holds parameter component pp"""
+        out = []
+        for l, arms in self.phi_vars().items():
+            comps = []
+            for leaves in arms:
+                c = None
+                for i, pa in enumerate(leaves):
+                    if pa[0] == pp[0] and pp[1][:len(pa[1])] == pa[1]:
+                        c = (i,) + pp[1][len(pa[1]):]
+                comps.append(c)
+            if all(c is not None for c in comps):
+                out.append((l, comps))
+        return out
 
     def dim_unit(self, e):
         """unit if e reads a dimension of an array object (field or getter or size() component)"""
@@ -368,7 +415,8 @@ class G:
 
 
 def _pname(pnames, pp):
-    return pnames.get(pp[0], "_%d" % pp[0]) + "".join(".%d" % i for i in pp[1])
+    base = pnames.get(pp[0], "_%d" % pp[0]) if isinstance(pp[0], int) else "_%d" % pp[0][1]
+    return base + "".join(".%d" % i for i in pp[1])
 
 
 def check_body(R, b, f, entries, RA, depth=0):
@@ -385,6 +433,34 @@ def check_body(R, b, f, entries, RA, depth=0):
             continue
         pp = (l, tuple(ppath[1:]))
         pdesc = ".".join(map(str, ppath))
+        r1, ra1 = Result(R.rule), Result(RA.rule)
+        _check_pp(r1, ra1, g, gs, b, f, pp, pdesc, unit, role, depth, pnames)
+        if r1.findings and not g.sensitive_uses(pp):
+            # the parameter is only used through a branch-dependent arrangement `(q, p)` / `(p, q)`: it is bounded when
+            # every component that can hold it is bounded
+            for (vl, comps) in g.phi_components(pp):
+                subs = []
+                for comp in sorted(set(comps)):
+                    r2, ra2 = Result(R.rule), Result(RA.rule)
+                    _check_pp(r2, ra2, g, gs, b, f, (("v", vl), comp), pdesc, unit, role, depth, pnames)
+                    subs.append((comp, r2, ra2))
+                if subs and all(r2.instances and all(i["ok"] for i in r2.instances) and not r2.findings and not ra2.findings for _, r2, ra2 in subs):
+                    r1, ra1 = Result(R.rule), Result(RA.rule)
+                    for comp, r2, ra2 in subs:
+                        for i in r2.instances:
+                            r1.inst(b.ident, "%s [held by _%d%s of the ordered arrangement]" % (i["what"], vl, "".join(".%d" % c for c in comp)), True)
+                    break
+        for src, dst in ((r1, R), (ra1, RA)):
+            for i in src.instances:
+                dst.inst(i["fn"], i["what"], i["ok"])
+            for fd in src.findings:
+                if not any(x.key == fd.key for x in dst.findings):
+                    dst.findings.append(fd)
+            dst.inconclusive += src.inconclusive
+
+
+def _check_pp(R, RA, g, gs, b, f, pp, pdesc, unit, role, depth, pnames):
+    if True:
         found, wrong = None, []
         for (bi, op, lo, ro, ok) in gs:
             pl, pr = g.mentions_param(lo, pp, bi), g.mentions_param(ro, pp, bi)
@@ -500,14 +576,19 @@ def check_body(R, b, f, entries, RA, depth=0):
                                     if not tt2 or tt2["k"] != "switch":
                                         continue
                                     e2 = strip(g.d.expr(tt2["discr"]))
-                                    if e2[0] != "bin" or e2[1] not in ("Eq", "Ne"):
+                                    tm2 = dict((int(a), b2) for a, b2 in tt2["targets"])
+                                    # `a == b` / `a != b`, or `match a - b { 0 => .. }`
+                                    diff0 = e2[0] == "bin" and e2[1].startswith("Sub") and 0 in tm2
+                                    if e2[0] != "bin" or not (e2[1] in ("Eq", "Ne") or diff0):
                                         continue
                                     pa, pb = g.param_path(e2[2]), g.param_path(e2[3])
                                     if pp not in (pa, pb) or pa is None or pb is None:
                                         continue
                                     other = pb if pa == pp else pa
-                                    tm2 = dict((int(a), b2) for a, b2 in tt2["targets"])
-                                    eq_succ = (tt2["otherwise"] if 0 in tm2 else tm2.get(1)) if e2[1] == "Eq" else tm2.get(0, tt2["otherwise"])
+                                    if diff0:
+                                        eq_succ = tm2[0]
+                                    else:
+                                        eq_succ = (tt2["otherwise"] if 0 in tm2 else tm2.get(1)) if e2[1] == "Eq" else tm2.get(0, tt2["otherwise"])
                                     if eq_succ is None:
                                         continue
                                     ochk = [bi for bi, t, fn in b.calls() if fn and fn["name"] in ("nth", "nth_back") and len(t["args"]) == 2 and g.mentions_param(g.d.expr(t["args"][1]), other, bi)]
@@ -541,7 +622,7 @@ def _all_paths_pass(b, chk_blocks, target):
 
 
 def _pexpr(pp):
-    e = ("param", pp[0])
+    e = ("param", pp[0]) if isinstance(pp[0], int) else ("var", pp[0][1])
     for f_ in pp[1]:
         e = ("field", e, f_)
     return e
